@@ -22,6 +22,7 @@ EXPLANATION = (
     "only with order-preserving constructs (dict insertion order = joining order). Removal of a present agent has no "
     "direct raise. Decides atomicity and the map discipline for every state; not errors outside the documented set.")
 EXPLANATION += (" The documented error is built as Error(identifier, self) in add_agent / remove_agent / get_agent. Premises: C08's placement predicate for SpaceWorld.add_agent / remove_agent, C03's join/leave rules for add_agent / remove_agent.")
+EXPLANATION += (' The deprecated camelCase spellings addAgent / removeAgent / getAgent forward every argument unchanged to one method of the receiver.')
 ASSUMPTIONS = ["dict preserves insertion order (language fact)", "component sets are not modified while resident (C03's dimension)"]
 
 ALOC = (CORE + 'Environment', 'agents')
@@ -150,6 +151,9 @@ def run(cx: Cx):
     check_overrides_forward(cx, env.qualname, ['get_agent', '__len__', '__iter__', 'get_agents'])
     from .common import check_deprecated_aliases_forward
     check_deprecated_aliases_forward(cx, env.qualname, only=('addAgent', 'removeAgent', 'getAgent'))
+    from .common import check_error_is_plain_exception
+    for e_ in ('AgentNotFoundError', 'DuplicateAgentError'):
+        check_error_is_plain_exception(cx, CORE + e_)
 
     # ------------------------------------------------------------ clause 4: removing a present agent has no direct raise
     for fnr in (rem, sw_rem):
